@@ -124,6 +124,9 @@ func (h *HashRecordOfValue) Equal(thread *Thread, other value.Value) (bool, valu
 	switch o := other.SafeAsReference().(type) {
 	case *HashRecordOfValue:
 		return HashRecordOfValueEqual(thread, h, o)
+	case HashMap:
+		// maps satisfy the Go HashRecord interface too, but `==` is strict (`=~` compares across the two classes)
+		return false, value.Undefined
 	case HashRecord:
 		return HashRecordOfValueEqualInterface(thread, h, o)
 	}
